@@ -30,6 +30,7 @@ def main(tier, replay=None):
         f_edge = ex.submit(vlib.tlc, "ExcMachine", "Exc_edges.cfg", wd, 4, "4g")
         f_bug = ex.submit(vlib.tlc, "ExcMachine", "Exc_bug.cfg", wd, 2, "2g")
         f_bug2 = ex.submit(vlib.tlc, "ExcMachine", "Exc_bug_msgobj.cfg", wd, 2, "2g")
+        f_bug3 = ex.submit(vlib.tlc, "ExcMachine", "Exc_bug_catchobj.cfg", wd, 2, "2g")
         lib = f_lib.result()
         harness = vlib.build_harness(lib, ["h_exc.c"], os.path.join(wd, "h_exc"))
         r_exh, r_edge, r_bug = f_exh.result(), f_edge.result(), f_bug.result()
@@ -40,6 +41,8 @@ def main(tier, replay=None):
         chk.notes.append("ExcMachine: %s violated on the model" % r_exh.invariant)
     if r_bug.ok:
         raise vlib.ToolError("ExcMachine does not refute the as-found exception_catch: invariant vacuous")
+    if f_bug3.result().ok:
+        raise vlib.ToolError("ExcMachine does not refute the as-found exception_catch (record re-read after a filter comparison)")
     if f_bug2.result().ok:
         raise vlib.ToolError("ExcMachine does not refute the as-found exception_throw (object stored before the message is formatted)")
     edges = list(r_edge.lines("EDGE"))
